@@ -5,3 +5,12 @@ NOTES = ("Every check: ./check <ID> --tier quick|thorough; exit 0 held / 1 VIOLA
 reg("C10", "property-based differential test against an independent exact minimum-image oracle (Hypothesis, 16 shards)",
     "Random search over cells (orthogonal, triclinic, unimodularly sheared, needle, rotated, left-handed) x pbc x positions x cutoff; every table entry is checked for soundness (genuine image, norm, (anti)symmetry, never shorter than the true minimum image) and completeness/exactness within the promised range against an oracle that shares no code with MatID. Exploration, not proof: absence is only claimed for the explored family.",
     "Trusted: ASE minkowski_reduce (self-checked against brute-force lattice sums each run), numpy; matid/ext/ext.cpp binding layer is not rebuilt (no pybind11 in the sandbox) - geometry.cpp/celllist.cpp are rebuilt through cppshim when they differ from the pinned sources.")
+reg("C16", "property-based test against brute-force image enumeration (Hypothesis, 16 shards)",
+    "Random search over cells (incl. zeroed non-periodic vectors), pbc, extension/cutoff in both orders and query points; the extended system is checked entry by entry (original first, integer offsets, exact positions, no duplicates) and for completeness against a brute-force set of all images within the extension of the cell; neighbour queries and get_matches/get_matches_simple are compared with an exact nearest-image oracle. Exploration of the stated family only.",
+    "Trusted: scipy BVLS for point-to-parallelepiped distance (bracketed by analytic bounds), ASE minkowski_reduce (self-checked); boundary cases within 1e-7 are not judged; ext.cpp binding layer not rebuilt.")
+reg("C19", "exhaustive table enumeration + property-based differential test (preset vs. per-atom array)",
+    "All 103 x 3 preset entries are compared with the documented ASE tables (exhaustive); random structures mixing elements with and without vdW radii check that get_dimensionality and SBC give identical results for a preset and for the same numbers passed as a custom array, and that custom arrays come back unchanged.",
+    "Trusted: ase.data tables as the documented reference. The Classifier stores but never uses its radii argument (observation recorded in DESIGN.md, outside the statement's differential clause).")
+reg("C20", "property-based round-trip / metamorphic / reference-model test (Hypothesis, 16 shards)",
+    "Random cells, pbc, atoms inside or outside the cell: round trips of to_scaled/to_cartesian, integer-only wrapping, invariants of get_minimized_cell, swap_basis, complete_cell, translation/lattice-shift metamorphic relations and an independent weighted circular mean for the centre of mass, independent inertia tensor for get_moments_of_inertia.",
+    "Float tolerances scale with cond(cell) and are stated per clause; ill-conditioned circular means (resultant < 1e-3) are not judged.")
